@@ -194,12 +194,12 @@ class KOrderNative:
 class BandEnergies:
     """BOUNDED: eigenvalues of the dense Hamiltonian at k, k + G0 and -k for one fixed (real) potential."""
 
-    def _eigs(self, k, Vloc_pot, nev=6):
+    def _eigs(self, k, Vloc_pot, nev=6, cell=None, s=(17, 17, 19)):
         from eminus import SCF, Atoms
         from eminus.dft import H
 
-        at = Atoms(["Si", "H"], [[0.5, 0.6, 0.4], [2.9, 3.0, 3.3]], ecut=3, a=A_TRI)
-        at.s = [17, 17, 19]  # room for the shifted cut-off sphere
+        at = Atoms(["Si", "H"], [[0.5, 0.6, 0.4], [2.9, 3.0, 3.3]], ecut=3, a=A_TRI if cell is None else cell)
+        at.s = list(s)  # room for the shifted cut-off sphere
         at.set_k([k], [1.0])
         scf = SCF(at, xc="lda,pw", verbose="critical")
         at = scf.atoms
@@ -209,6 +209,29 @@ class BandEnergies:
         Hm = np.asarray(H(scf, 0, 0, W, dn_spin=None, phi=phi, vxc=vxc, vsigma=None, vtau=None))
         herm = float(np.abs(Hm - Hm.conj().T).max())
         return np.linalg.eigvalsh((Hm + Hm.conj().T) / 2)[:nev] / at.Omega, herm
+
+    def _eigs_reused(self, k_first, ks_then, Vloc_pot, nev=6):
+        """One SCF object built at k_first whose atoms are then REPLACED by the same atoms at other k-points (`scf.atoms = ...`): eigenvalues at each."""
+        from eminus import SCF, Atoms
+        from eminus.dft import H
+
+        def atoms_at(k):
+            at = Atoms(["Si", "H"], [[0.5, 0.6, 0.4], [2.9, 3.0, 3.3]], ecut=3, a=A_TRI)
+            at.s = [17, 17, 19]
+            at.set_k([k], [1.0])
+            return at
+
+        scf = SCF(atoms_at(k_first), xc="lda,pw", verbose="critical")
+        out = []
+        for k in ks_then:
+            scf.atoms = atoms_at(k)
+            at = scf.atoms
+            n = len(at.Gk2c[0])
+            W = [np.eye(n, dtype=complex)[None, :, :]]
+            phi, vxc = Vloc_pot(at)
+            Hm = np.asarray(H(scf, 0, 0, W, dn_spin=None, phi=phi, vxc=vxc, vsigma=None, vtau=None))
+            out.append(np.linalg.eigvalsh((Hm + Hm.conj().T) / 2)[:nev] / at.Omega)
+        return out
 
     def _case(self, seed):
         _setup()
@@ -232,7 +255,10 @@ class BandEnergies:
         e4, _ = self._eigs(k + 3 * b[0] - 2 * b[2], pot)
         d = dict(k_plus_b1=float(np.abs(e1 - e0).max()), k_minus_b2_plus_b3=float(np.abs(e2 - e0).max()), minus_k=float(np.abs(e3 - e0).max()),
                  k_plus_3b1_minus_2b3=float(np.abs(e4 - e0).max()), hermiticity=h0)
-        return (max(d["k_plus_b1"], d["k_minus_b2_plus_b3"], d["minus_k"], d["k_plus_3b1_minus_2b3"]),), dict(check="lowest 6 eigenvalues of the dense H (Si/H, GTH s/p projectors, triclinic cell, fixed real potential)", eigenvalues=e0.tolist(), **d)
+        # the same with ONE SCF object whose atoms are replaced by atoms at the other k-points (projectors and masks have to follow the k-point)
+        r = self._eigs_reused(np.array([0.3, 0.2, -0.1]), [k, -k, k + b[0]], pot)
+        d["reused_scf_object_k_minusk_kplusb1"] = float(max(np.abs(x - e0).max() for x in r))
+        return (max(d["k_plus_b1"], d["k_minus_b2_plus_b3"], d["minus_k"], d["k_plus_3b1_minus_2b3"], d["reused_scf_object_k_minusk_kplusb1"]),), dict(check="lowest 6 eigenvalues of the dense H (Si/H, GTH s/p projectors, triclinic cell, fixed real potential)", eigenvalues=e0.tolist(), **d)
 
     def __call__(self, ob, tier, seed):
         (worst,), info = self._case(seed)
@@ -401,3 +427,87 @@ register(Obligation(name="C07.k_weights.split_equivalence_and_full_basis_Ekin", 
                     functions=["eminus.energies:get_E", "eminus.energies:get_Eband", "eminus.energies:get_Ekin", "eminus.operators:L", "eminus.gga:get_tau"], budget={"quick": 300, "thorough": 600},
                     doc="BOUNDED: a weighted k-point equals the same k-point listed several times with the weight divided (every energy, band energy included); "
                         "the kinetic energy at k != 0 is the same from cut-off restricted and zero-padded full-basis coefficients"))
+
+
+# ------------------------------------------------------------------------------------------------
+# time-reversal reduction of a k-point set: the k-weighted band energy at fixed potential does not change
+# ------------------------------------------------------------------------------------------------
+
+
+class TrsBandEnergy:
+    """BOUNDED: since the band energies at k and -k coincide (fixed real potential), merging the time-reversal partners of a k-point set with their weights
+    (KPoints.trs) leaves the k-weighted sum of band energies unchanged. Gamma-centred 2x2x2 mesh of an fcc cell (its Cartesian k-points have negative
+    components and the partners are NOT at mirrored list positions), a Monkhorst-Pack 2x2x1 mesh, and a hand-made list with weights."""
+
+    def case(self, seed):
+        import eminus
+        from eminus.kpoints import KPoints
+
+        _setup()
+        be = BandEnergies()
+        rng = np.random.default_rng(seed)
+        coef = rng.standard_normal(4)
+        cell = 7.5 * np.array([[0.0, 0.5, 0.5], [0.5, 0.0, 0.5], [0.5, 0.5, 0.0]])
+
+        def pot(at):
+            r = np.asarray(at.r)
+            b = 2 * np.pi * np.linalg.inv(np.asarray(at.a)).T
+            v = sum(c * np.cos(r @ b[i % 3] * (1 + i // 3)) for i, c in enumerate(coef)) * 0.1
+            return at.J(v), np.asarray([v * 0.5])
+
+        cache = {}
+
+        def eband(ks, wk):
+            tot = 0.0
+            for k, w in zip(np.asarray(ks), np.asarray(wk)):
+                key = tuple(np.round(k, 10))
+                if key not in cache:
+                    cache[key] = float(np.sum(be._eigs(np.asarray(k, dtype=float), pot, nev=4, cell=cell, s=(12, 12, 12))[0]))
+                tot += float(w) * cache[key]
+            return tot
+
+        out = {}
+        b = 2 * np.pi * np.linalg.inv(cell).T
+        sets = {}
+        kp = KPoints("fcc", cell)
+        kp.kmesh = [2, 2, 2]
+        kp.build()
+        sets["Gamma-centred 2x2x2, fcc"] = kp
+        kp = KPoints("fcc", cell)
+        kp.gamma_centered = False
+        kp.kmesh = [2, 2, 1]
+        kp.build()
+        sets["Monkhorst-Pack 2x2x1, fcc"] = kp
+        kp = KPoints("fcc", cell)
+        kp.build()
+        kq = np.array([0.3, -0.1, 0.2]) @ b
+        kp.k = np.array([[0.0, 0.0, 0.0], kq, 0.5 * b[0], -kq])
+        kp.wk = np.array([0.1, 0.2, 0.3, 0.4])
+        kp.is_built = True  # the setters reset the flag (trs() would regenerate the mesh); trs() itself marks its result as built in the same way
+        sets["list (0, q, b1/2, -q) with weights (0.1, 0.2, 0.3, 0.4)"] = kp
+        for name, kp in sets.items():
+            k0, w0 = np.asarray(kp.k).copy(), np.asarray(kp.wk).copy()
+            e_full = eband(k0, w0)
+            kp.trs()
+            k1, w1 = np.asarray(kp.k), np.asarray(kp.wk)
+            out[name] = dict(points_before=len(k0), points_after=len(k1), weight_sum_after=float(np.sum(w1)), band_energy_full=e_full, band_energy_reduced=eband(k1, w1))
+        worst = max(max(abs(v["band_energy_full"] - v["band_energy_reduced"]), abs(v["weight_sum_after"] - 1)) for v in out.values())
+        return worst, out
+
+    def __call__(self, ob, tier, seed):
+        try:
+            worst, info = self.case(seed)
+        except Exception as e:  # noqa: BLE001
+            worst, info = float("inf"), dict(raised=f"{type(e).__name__}: {e}")
+        if not worst <= 1e-8:
+            return Result(REFUTED, backend="native", witness=dict(seed=seed), replayed=True, replay_info=info, detail=f"k-weighted band energy at fixed potential changes under trs(): {info}")
+        return Result(BOUNDED_OK, backend="native", detail=f"bounded: k-weighted sum of the lowest band energies before / after trs() agree to {worst:.1e} for three k-point sets (fcc cell)")
+
+    def replay(self, wit):
+        worst, info = self.case(wit["seed"])
+        return bool(not worst <= 1e-8), info
+
+
+register(Obligation(name="C07.trs.k_weighted_band_energy_unchanged", prop=PROP, engine="B", bounded=True, run=TrsBandEnergy(), functions=["eminus.kpoints:KPoints.trs", "eminus.dft:H"],
+                    budget={"quick": 300, "thorough": 600},
+                    doc="BOUNDED: merging time-reversal partners with their weights leaves the k-weighted band energy at fixed potential unchanged (band energies at k and -k coincide)"))
